@@ -447,7 +447,7 @@ def _utf7_sig(pred, name: str, got_dec) -> str | None:
 
 def _real_decode(data: bytes):
     try:
-        with wc.watchdog(0.25):
+        with wc.watchdog(0.5):
             return modutf7_decode(data)
     except wc.Hang:
         return 'HANG'
@@ -899,7 +899,7 @@ def main(tier: str) -> int:
     jobs = []
     extra = [b'Subject', b'FROM', b'To', b'x-none', b'user1', b'pass1', b'INBOX', b'inbox',
              b'Sent', b'Trash', b'a{3+}', b'Re: Re', b'a}b', b'Random question',
-             b'friend@example.com', b'x' * 70]
+             b'friend@example.com', b'x' * 20]
     for st in sel:
         classes = tuple(st['v'])
         value = conc_val(classes, random.Random(_seed(run.seed, classes)))
@@ -946,6 +946,29 @@ def main(tier: str) -> int:
     except Exception as exc:
         run.machinery(f'siblings: {exc!r}')
         return run.finish()
+    # the one length-dependent decision of the string parsers
+    # (LiteralString._check_too_big: 4096 outside APPEND) is outside the class
+    # model: probed at the boundary
+    all_legal = {k: {'legal': True, 'parse': True, 'reparse': True, 'frame': True}
+                 for k in KINDS}
+    for n_ in (4096, 4097):
+        value = b'a' * n_
+        for classes, value, template, nk, fails in siblings_chunk(
+                [(('CH',) * 3, value, all_legal, 'create', _seed(run.seed, n_))]):
+            nsib += nk
+            run.count_exec(('sib-limit', n_), nontrivial=True)
+            for k, ref, sig, got, want in fails:
+                sig = None
+                bad = got if k != 'atom' or ref == 'atom' else want
+                if len(value) > 4096 and (k in ('lit', 'litplus') or ref in ('lit', 'litplus')) \
+                        and any(isinstance(x, bytes) and b' BAD ' in x for x in
+                                (got if k in ('lit', 'litplus') else want)):
+                    sig = 'LiteralOver4096Refused'
+                run.violation(
+                    f'create: a value of {len(value)} bytes spelled as {k} is answered '
+                    f'differently from its {ref} spelling: {_short(got)} vs {_short(want)}',
+                    {'check': 'C18', 'part': 'sibling', 'template': 'create',
+                     'value_hex': value.hex(), 'kind': k, 'ref': ref}, sig)
     run.notes['siblings'] = {'servers': nsib, 'commands': len(jobs), 'wall_s': timer.lap()}
 
     # ---- utf7 -----------------------------------------------------------------
